@@ -33,6 +33,8 @@ struct RunOut {
 #[derive(Default)]
 struct Shadow {
     credited: BTreeMap<(usize, usize), u32>,
+    /// target tokens seen arriving at each account since the last accepted Purge (the monitors' own mint count)
+    received: BTreeMap<usize, u64>,
 }
 
 fn recipient_index(user: usize, recip: &Recip) -> Option<usize> {
@@ -101,6 +103,10 @@ fn monitor(
             if pre.counts[r] >= pre.limit {
                 bad!("deposit-at-limit", format!("recipient {} has mint count {} with per-address limit {}, deposit accepted", r, pre.counts[r], pre.limit));
             }
+            let got = *sh.received.get(&r).unwrap_or(&0);
+            if got >= pre.limit && pre.mintable > 0 {
+                bad!("deposit-at-limit", format!("recipient {} was minted {} tokens (per-address limit {}), tokens remain, deposit accepted", r, got, pre.limit));
+            }
             // the deposited token is burned
             if let Some(i) = case.src.iter().position(|(c, t, _)| c == coll && t == tok) {
                 if post.src[i] != 0 {
@@ -156,6 +162,16 @@ fn monitor(
             if pre.src != post.src {
                 bad!("source-token-changed", format!("{:?} changed a source token", st.op));
             }
+        }
+    }
+    for i in &new_tgt {
+        if let Some(a) = ACCOUNTS.iter().position(|(_, id)| *id == post.tgt[*i]) {
+            *sh.received.entry(a).or_insert(0) += 1;
+        }
+    }
+    if let Op::Purge { .. } = &st.op {
+        if pre.mintable == 0 {
+            sh.received.clear(); // the documented reset once the sale is sold out
         }
     }
     // DepositedTokens shows exactly the accepted, not yet consumed deposits
@@ -533,7 +549,7 @@ fn probes(rng: &mut Rng) -> Vec<Case> {
         }
     }
     // UpdatePerAddressLimit / UpdateStartTime guards
-    let mut lits: Vec<u32> = vec![0, 1, 2, 3, 4, MAX_PER_ADDRESS_LIMIT, MAX_PER_ADDRESS_LIMIT + 1];
+    let mut lits: Vec<u32> = vec![0, 1, 2, 3, 4, 5, 6, 7, 8, MAX_PER_ADDRESS_LIMIT - 1, MAX_PER_ADDRESS_LIMIT, MAX_PER_ADDRESS_LIMIT + 1];
     for l in harvest_literals(&["contracts/minters/token-merge-minter/src/contract.rs", "contracts/minters/token-merge-minter/src/validation.rs"]) {
         if l < 200 {
             for d in [l.saturating_sub(1), l, l + 1] {
@@ -543,7 +559,7 @@ fn probes(rng: &mut Rng) -> Vec<Case> {
     }
     lits.sort();
     lits.dedup();
-    for nt in [3u32, 99, 100, 101, 134] {
+    for nt in [3u32, 99, 100, 101, 134, 167, 1700] {
         let mut b = B::new(&format!("probe-updlimit-n{}", nt), &[1], nt, 1);
         b.push(Op::UpdLimit { caller: 1, l: 2, funds: vec![] });
         b.push(Op::UpdLimit { caller: 0, l: 2, funds: vec![(0, 1)] });
@@ -574,7 +590,7 @@ fn probes(rng: &mut Rng) -> Vec<Case> {
 fn random_history(rng: &mut Rng, idx: usize) -> Case {
     let n = rng.range(1, 3) as usize;
     let vec: Vec<u32> = (0..n).map(|_| rng.range(1, 3) as u32).collect();
-    let nt = rng.range(1, 4) as u32;
+    let nt = *rng.pick(&[1u32, 2, 3, 4, 6, 8]);
     let limit = rng.range(1, 3) as u32;
     let mut b = B::new(&format!("random-{}", idx), &vec, nt, limit);
     b.case.airdrop_price = *rng.pick(&[0u128, 0, 1000]);
@@ -720,7 +736,10 @@ fn describe(case: &Case, r: &RunOut) -> Vec<String> {
                 "t={:+}ns {:?} -> {}{}",
                 s.at as i128 - START as i128,
                 s.op,
-                if o.ok { "ok".to_string() } else { format!("err({})", o.err.chars().take(90).collect::<String>()) },
+                if o.ok { "ok".to_string() } else { {
+                    let e: Vec<char> = o.err.replace('\n', " ").chars().collect();
+                    format!("err(..{})", e[e.len().saturating_sub(70)..].iter().collect::<String>())
+                } },
                 if o.pick != 0 { format!(" minted #{}", o.pick) } else { String::new() }
             )
         })
